@@ -17,6 +17,7 @@ L_RULES = [
 ]
 LE_RULES = [{"name": "bit_cast<char_array,uint32_t>", "re": r"std::bit_cast<char_array, std::uint32_t>\(0x01020304\)",
              "sub": "BITCAST(struct char_array, uint32_t, 0x01020304)", "min": 1}]
+R_LD_CAST = {"name": "bit_cast<struct, long double>", "re": r"std::bit_cast<(\w+), long double>\(x\)", "sub": r"BITCAST(struct \1, ld_image, x)"}
 LD = r"#elif LDBL_MANT_DIG == 64 && LDBL_MAX_EXP == 16384\s+TFEL_HOST_DEVICE inline int fpclassify\(const long double x\) noexcept"
 BODIES = [
     dict(name="fpclassify_f", file=F, pattern=r"constexpr int fpclassify\(const float x\) noexcept", rules=[R32]),
@@ -25,10 +26,10 @@ BODIES = [
     dict(name="fpclassify_l", file=F, pattern=LD, rules=L_RULES),
     dict(name="isnan_f", file=F, pattern=r"constexpr bool isnan\(const float x\) noexcept"),
     dict(name="isnan_d", file=F, pattern=r"constexpr bool isnan\(const double x\) noexcept"),
-    dict(name="isnan_l", file=F, pattern=r"TFEL_HOST_DEVICE inline bool isnan\(const long double x\) noexcept"),
+    dict(name="isnan_l", file=F, pattern=r"TFEL_HOST_DEVICE inline bool isnan\(const long double x\) noexcept", rules=[R_LD_CAST]),
     dict(name="isfinite_f", file=F, pattern=r"constexpr bool isfinite\(const float x\) noexcept"),
     dict(name="isfinite_d", file=F, pattern=r"constexpr bool isfinite\(const double x\) noexcept"),
-    dict(name="isfinite_l", file=F, pattern=r"TFEL_HOST_DEVICE inline bool isfinite\(const long double x\) noexcept"),
+    dict(name="isfinite_l", file=F, pattern=r"TFEL_HOST_DEVICE inline bool isfinite\(const long double x\) noexcept", rules=[R_LD_CAST]),
 ]
 JOBS = []
 for w in "fdl":
